@@ -23,7 +23,9 @@ func usage() {
   vamh gen    -seed S -n N -ops K -profile P[,P..]|all -out DIR [-summary FILE] [-shrink=true] [-keep-traces=true]
   vamh replay TRACE [-v]
   vamh faults -seed S -n N -ops K -profile P [-out DIR] [-sticky both|one|sticky]
-  vamh race   -seed S -dur 5s [-workers 8]`)
+  vamh race   -seed S -dur 5s [-workers 8]      (build with -race -gcflags=all=-d=checkptr=0)
+  vamh racesum RACE_DETECTOR_STDERR_FILE
+  vamh check  CORPUS_DIR...                     (re-run failing traces; exit 1 if any recorded failure still occurs)`)
 	os.Exit(2)
 }
 
@@ -40,6 +42,10 @@ func main() {
 		cmdFaults(os.Args[2:])
 	case "race":
 		cmdRace(os.Args[2:])
+	case "racesum":
+		cmdRaceSum(os.Args[2:])
+	case "check":
+		cmdCheck(os.Args[2:])
 	default:
 		usage()
 	}
@@ -276,7 +282,17 @@ func cmdReplay(args []string) {
 		h.write(*rewrite, "re-executed from "+path)
 	}
 	diverged := false
+	recorded := false
+	for i := range t.lines {
+		recorded = recorded || len(t.lines[i]) > 0
+	}
+	if !recorded {
+		fmt.Println("trace has no recorded observables: executing only")
+	}
 	for i := range t.ops {
+		if !recorded {
+			break
+		}
 		if i >= len(h.steps) {
 			fmt.Printf("DIVERGENCE at op %d (%s): re-execution stopped early\n", i, t.ops[i].String())
 			diverged = true
@@ -324,5 +340,63 @@ func cmdReplay(args []string) {
 	}
 	if !diverged {
 		fmt.Println("no divergence from recorded observables")
+	}
+}
+
+// cmdCheck re-executes every trace of a directory (a corpus of failing histories) and reports, per file,
+// whether the failure named in its "# sig=" comment still occurs on the code under test.
+func cmdCheck(args []string) {
+	if len(args) == 0 {
+		usage()
+	}
+	stillFailing := 0
+	for _, dir := range args {
+		files, _ := filepath.Glob(filepath.Join(dir, "*.trace"))
+		sort.Strings(files)
+		for _, f := range files {
+			t, err := readTrace(f)
+			if err != nil {
+				fmt.Printf("%-78s ERROR %v\n", filepath.Base(f), err)
+				continue
+			}
+			want := ""
+			if data, err := os.ReadFile(f); err == nil {
+				for _, l := range strings.Split(string(data), "\n") {
+					if strings.HasPrefix(l, "# sig=") {
+						want = strings.TrimPrefix(l, "# sig=")
+					}
+				}
+			}
+			h := runHistory(t.cfg, &listSource{ops: t.ops}, len(t.ops), "")
+			fk := h.failKeys()
+			keys := make([]string, 0, len(fk))
+			hit := false
+			for k, v := range fk {
+				keys = append(keys, k)
+				// fault-injection witnesses are recorded as "<prop>.<sig>"
+				if v.sig == want || v.prop+"."+v.sig == want {
+					hit = true
+				}
+			}
+			sort.Strings(keys)
+			status := "fixed/absent"
+			switch {
+			case want == "" && len(keys) > 0:
+				status = "FAILS"
+			case want == "":
+				status = "no failure"
+			case hit:
+				status = "STILL FAILS"
+			case len(keys) > 0:
+				status = "other failures"
+			}
+			if hit || (want == "" && len(keys) > 0) {
+				stillFailing++
+			}
+			fmt.Printf("%-78s %-14s %s\n", filepath.Base(f), status, strings.Join(keys, " "))
+		}
+	}
+	if stillFailing > 0 {
+		os.Exit(1)
 	}
 }
